@@ -347,6 +347,7 @@ func source(c Case) string {
 type stats struct {
 	mixed, wrapped, outside, nearCache, cross53 bool
 	tooLong                                     bool
+	rep                                         repStats // sub-check repeat: what the `string * n` nodes were given
 }
 
 var two63 = new(big.Int).Lsh(big.NewInt(1), 63)
@@ -406,9 +407,12 @@ func refEval(n *Node, st *stats) (val, bool) { // value, error
 			return val{k: "s", s: s}, false
 		case "*":
 			if r.i < 0 {
+				st.noteRepeat(l.s, r.i)
 				return val{}, true
 			}
-			if len(l.s)*int(r.i) > 20000 {
+			st.noteRepeat(l.s, r.i)
+			// resource guard; written as a division: the product of a length and a count near 2^63 wraps
+			if len(l.s) > 0 && r.i > int64(20000/len(l.s)) {
 				st.tooLong = true
 				return val{k: "s"}, false
 			}
@@ -927,4 +931,6 @@ func TestC05(t *testing.T) {
 	h.Run(c, "site", c.N(15000, 150000), genSite, oracleSite)
 	c.Rule("again: one parsed expression tree (half of the leaves literals; a third of the trees hold an operator the statement makes an error: % by zero, a string repeated a negative number of times) evaluated 2-4 times: body of a function called again, loop body, the parsed statements run again by the host (fresh / same environment); every evaluation must give what Go computes for the operands, errors included; non-trivial = the tree has an operator; distinct by form and source text")
 	h.Run(c, "again", c.N(4000, 40000), genAgain, oracleAgain)
+	c.Rule("repeat: `string * n` with the count from the whole int64 range (2^31-1, 2^31, 2^32, 2^53+-1, 2^63-1 and their neighbours, the negatives of these, any int64, counts computed by << + *; every leaf provenance) against an operand whose value is the empty string (literal or computed), a non-empty string with a count of 7..20000/len, zero or a negative count; alone, under + and under another repeat, or as a row of (string, count) pairs through one `s * n` site; a result of more than 20000 bytes is excluded before anything runs (resource guard); must give what strings.Repeat gives, a negative count an error; non-trivial = a count outside -2..6; distinct by source text")
+	h.Run(c, "repeat", c.N(8000, 80000), genRepeat, oracleRepeat)
 }
